@@ -3,6 +3,7 @@ from engine import sx
 from common import *
 
 PID = "C18"
+TIES = ['sequence_init', 'for_input_sequence', 'for_script', 'locktime_for_transaction', 'push_integer']   # source-tie files coq/Properties/Tie_<f>.v that belong to this property
 THEOREMS = ["C18_relative", "C18_rejects", "C18_nonfinal", "C18_locktime", "C18_locktime_rejects"]
 TECHNIQUE = "Coq proof (kernel-computed exhaustive check of all 2 x 65535 relative values lifted to a forall; lia for ranges) + extracted model/spec correspondence"
 RULE = ("every relative value 1..65535 for both unit types (exhaustive), rejected neighbours 0/65536/negatives/2^22/2^31, absolute and RBF "
@@ -44,7 +45,8 @@ def impl(d):
     k = d["k"]
     if k in ("rel", "abs", "rbf"):
         ty = {"rel": C.TYPE_RELATIVE_TIMELOCK, "abs": C.TYPE_ABSOLUTE_TIMELOCK, "rbf": C.TYPE_REPLACE_BY_FEE}[k]
-        s = Sequence(ty, d["v"], d["blk"])
+        # the documented default of the third argument is block units: use it on every other block-unit case
+        s = Sequence(ty, d["v"]) if (d["blk"] is True and d["v"] % 2 == 0) else Sequence(ty, d["v"], d["blk"])
         a = s.for_input_sequence()
         if k != "rel" and isinstance(a, (bytes, str)):
             # the property constrains these constants only through what they mean
